@@ -1,0 +1,19 @@
+//go:build verif
+
+// Contracts for the verification machinery in /verif (comment-only; no declarations).
+
+package httppeeridauth
+
+// ---------------------------------------------------------------------------
+// C19: the HTTP handler reports a peer ID to the application only after the handshake's own checks
+
+//@ func (a *ServerPeerIDAuth) ServeHTTPWithNextHandler
+//@ prop C19
+//@ callsite next#0 requires called(Run, 0) && ret(Run, 0, 0) == nil && called(PeerID, 0) && ret(PeerID, 0, 1) == nil && arg0 == ret(PeerID, 0, 0)
+//@ callsite next#0 requires called(ParseHeaderVal, 0) && ret(ParseHeaderVal, 0, 0) == nil
+//@ callsite next#0 requires a.NoTLS ==> a.ValidHostnameFn != nil && called(ValidHostnameFn, 0) && ret(ValidHostnameFn, 0, 0) && arg(ValidHostnameFn, 0, 0) == r.Host
+//@ callsite next#0 requires !a.NoTLS ==> r.TLS != nil && r.Host == r.TLS.ServerName
+//@ callsite next#0 requires !a.NoTLS && a.ValidHostnameFn != nil ==> called(ValidHostnameFn, 1) && ret(ValidHostnameFn, 1, 0)
+//@ callsite Run#0 requires hs.Hostname == r.Host && hs.PrivKey == a.PrivKey && hs.TokenTTL == a.TokenTTL && hs.Hmac == hmac
+//@ ensures ncalls(next, 0) <= 1
+//@ noframe
